@@ -3104,7 +3104,8 @@ def with_common(fam, prefix, **kw):
             r2 = random.Random(rng.random())
             for other in ACTOR:
                 if other != prefix.upper():
-                    out += [(f'{prefix}-x-{n}', l) for n, l in BASE[other](r2, 'quick') if not n.startswith('big-')]
+                    # (very long scripts — identifier wrap-arounds — stay with their owner: some sibling oracles are quadratic)
+                    out += [(f'{prefix}-x-{n}', l) for n, l in BASE[other](r2, 'quick') if not n.startswith('big-') and len(l) < 20000]
         return out
     return f
 
